@@ -195,6 +195,7 @@ class _Run:
         self.fired = collections.Counter()
         self.failed = set()
         self.kept = []
+        self.kept_md = []
 
     def _metadata(self, k):
         from streamz import RefCounter
@@ -310,9 +311,14 @@ class _Run:
         for n0, obj, frozen in self.kept:
             if _fz(obj) != frozen:
                 return ("delivered-object-changed-later", n0, dict(delivered=frozen, now=_fz(obj)))
+        for n0, mobj, ids in self.kept_md:
+            if [id(d) for d in mobj] != ids:
+                return ("delivered-metadata-changed-later", n0, dict(entries_when_delivered=len(ids), entries_now=len(mobj)))
         for n, v, m in self.log:
             if isinstance(v, (list, dict)):
                 self.kept.append((n, v, _fz(v)))
+            if self.mode == "md" and isinstance(m, list) and m:
+                self.kept_md.append((n, m, [id(d) for d in m]))
         if got != want:
             clause = "sibling-order" if sorted(map(repr, got)) == sorted(map(repr, want)) else "value"
             return (clause, self._first_div(exp), dict(got=got[:12], want=want[:12]))
